@@ -61,6 +61,8 @@ func c07Ops() []c07Op {
 	noopt := expr.Optimize(false)
 	alloc := mustC(`map(1..N, {# * 2})`, expr.Env(c07Env{}), noopt)
 	nested := mustC(`all(A, {all(A, {[#, N / Z][1] >= 0})})`, expr.Env(c07Env{}), noopt)
+	callProg := mustC(`Total() + N`, expr.Env(c07Env{}))
+	loopCallProg := mustC(`map(A, {Scale(#)})`, expr.Env(c07Env{}), noopt)
 	return []c07Op{
 		{name: "triv", prog: mustC(`1 + 2`, noopt), env: nil},
 		{name: "alloc4", prog: alloc, env: se(2, 1)},
@@ -75,15 +77,15 @@ func c07Ops() []c07Op {
 		{name: "count", prog: mustC(`count(A, {# > 1}) + count(1..N, {# > Z})`, expr.Env(c07Env{}), noopt), env: se(3, 1)},
 		{name: "mapEnv", prog: mustC(`filter(A, {# >= N})`, expr.Env(me)), env: me},
 		{name: "callPanic", prog: mustC(`map(A, {Boom(#)})`, expr.Env(c07Env{})), env: se(1, 1)},
-		{name: "callEnvA", prog: mustC(`Total() + N`, expr.Env(c07Env{})), env: se(2, 1)},
-		{name: "callEnvB", prog: mustC(`Total() + N`, expr.Env(c07Env{})), env: c07Env{N: 7, Z: 1, A: []int{1}}},
+		{name: "callEnvA", prog: callProg, env: se(2, 1)}, // ONE program value for both environments
+		{name: "callEnvB", prog: callProg, env: c07Env{N: 7, Z: 1, A: []int{1}}},
 		{name: "mapProgNilEnv", prog: mustC(`N`, expr.Env(me)), env: nil},
 		{name: "mapProgNamedMap", prog: mustC(`N`, expr.Env(me)), env: c07NamedMap{"N": 9}},
 		{name: "mapProgOtherMap", prog: mustC(`N`, expr.Env(me)), env: map[string]interface{}{"N": 4}},
 		{name: "allocThenFail", prog: mustC(`map(1..N, {#})[N + 5]`, expr.Env(c07Env{}), noopt), env: se(3, 1)},
 		{name: "loopCallFails", prog: mustC(`map(A, {Scale(#) % Z})`, expr.Env(c07Env{}), noopt), env: se(5, 0)},
-		{name: "loopCallA", prog: mustC(`map(A, {Scale(#)})`, expr.Env(c07Env{}), noopt), env: se(2, 1)},
-		{name: "loopCallB", prog: mustC(`map(A, {Scale(#)})`, expr.Env(c07Env{}), noopt), env: se(7, 1)},
+		{name: "loopCallA", prog: loopCallProg, env: se(2, 1)},
+		{name: "loopCallB", prog: loopCallProg, env: se(7, 1)},
 		{name: "nestedLoopCallFails", prog: mustC(`map(A, {count(A, {Scale(#) % Z > 0})})`, expr.Env(c07Env{}), noopt), env: se(3, 0)},
 		{name: "nestedLoopCall", prog: mustC(`map(A, {count(A, {Scale(#) > 2})})`, expr.Env(c07Env{}), noopt), env: se(2, 1)},
 		{name: "deepStackOverBudget", prog: mustC(`filter(Big, {true})`, expr.Env(c07Env{}), noopt), env: c07Env{N: 1, Z: 1, A: []int{1}, Big: make([]int, 1500)}},
